@@ -38,9 +38,9 @@ type smContext struct {
 	Name        string
 	Override    string // "" or the State constant's name
 	OverrideVal int64
-	Base        tri               // triT: base != nil, triF: base == nil
-	Fixed       map[string]bool   // thorough tier: atoms fixed to a value (e.g. "url.IsSpecialScheme()")
-	Entry       string            // initial state
+	Base        tri             // triT: base != nil, triF: base == nil
+	Fixed       map[string]bool // thorough tier: atoms fixed to a value (e.g. "url.IsSpecialScheme()")
+	Entry       string          // initial state
 }
 
 type fieldEff struct {
@@ -80,22 +80,22 @@ type bufWrite struct {
 type smPath struct {
 	BufWrites        []bufWrite
 	BufferEmptyAtEnd bool
-	Ctx, State string
-	Next       string // "" = stay in the state
-	NextPos    token.Pos
-	Returned   bool
-	RetKind    string // ok | fail | nilnil | bad
-	RetText    string
-	RetPos     token.Pos
-	Cursor     []cursorOp
-	Effects    []fieldEff
-	Handlers   []handlerUse
-	BaseDerefs []token.Pos
-	Calls      []callUse
-	Assumes    []string
-	Undecided  []string
-	Continue   bool // a `continue` of the main loop lies on the path
-	RClass     []string
+	Ctx, State       string
+	Next             string // "" = stay in the state
+	NextPos          token.Pos
+	Returned         bool
+	RetKind          string // ok | fail | nilnil | bad
+	RetText          string
+	RetPos           token.Pos
+	Cursor           []cursorOp
+	Effects          []fieldEff
+	Handlers         []handlerUse
+	BaseDerefs       []token.Pos
+	Calls            []callUse
+	Assumes          []string
+	Undecided        []string
+	Continue         bool // a `continue` of the main loop lies on the path
+	RClass           []string
 }
 
 func (p *smPath) Rewinds() bool {
@@ -152,12 +152,12 @@ type errVar struct {
 }
 
 type pst struct {
-	defs      map[types.Object]ast.Expr // locals defined once by a side-effect-free expression whose inputs were not written since
+	defs      map[types.Object]ast.Expr     // locals defined once by a side-effect-free expression whose inputs were not written since
 	valErr    map[types.Object]types.Object // value variable -> error variable of the same tuple assignment
-	boolDefs  map[types.Object]ast.Expr  // local bool variables defined once by an expression
-	bufState  map[string]string          // builder name -> empty | nonempty
-	setVars   map[types.Object]string    // local *PercentEncodeSet variables -> resolved expression
-	strVars   map[types.Object]ast.Expr  // local strings defined by an encode call
+	boolDefs  map[types.Object]ast.Expr     // local bool variables defined once by an expression
+	bufState  map[string]string             // builder name -> empty | nonempty
+	setVars   map[types.Object]string       // local *PercentEncodeSet variables -> resolved expression
+	strVars   map[types.Object]ast.Expr     // local strings defined by an encode call
 	path      smPath
 	facts     map[string]bool
 	rclass    map[string]bool
@@ -250,27 +250,27 @@ type predSummary struct {
 }
 
 type smAn struct {
-	c     *Ctx
-	pkg   *packages.Package
-	info  *types.Info
-	fd    *ast.FuncDecl
-	fn    *ssa.Function
-	em    *errModel
-	eff   *Eff
+	c    *Ctx
+	pkg  *packages.Package
+	info *types.Info
+	fd   *ast.FuncDecl
+	fn   *ssa.Function
+	em   *errModel
+	eff  *Eff
 
 	stateObj, inputObj, urlObj, baseObj, baseUrlObj, ovObj, ovParam, rObj types.Object
-	stateNames  map[int64]string
-	stateVals   map[string]int64
-	clauses     map[string]*ast.CaseClause
-	clauseOrder []string
-	loop        *ast.ForStmt
-	sw          *ast.SwitchStmt
-	prologue    []ast.Stmt
-	cursorClass map[string]string
-	lits        []string
-	preds       map[*types.Func]*predSummary
-	ctx         smContext
-	problems    []string
+	stateNames                                                            map[int64]string
+	stateVals                                                             map[string]int64
+	clauses                                                               map[string]*ast.CaseClause
+	clauseOrder                                                           []string
+	loop                                                                  *ast.ForStmt
+	sw                                                                    *ast.SwitchStmt
+	prologue                                                              []ast.Stmt
+	cursorClass                                                           map[string]string
+	lits                                                                  []string
+	preds                                                                 map[*types.Func]*predSummary
+	ctx                                                                   smContext
+	problems                                                              []string
 }
 
 type smModel struct {
